@@ -19,7 +19,11 @@ non-finite / degenerate answer is a reported input, not a harness crash).  Regim
 of the rotation's quaternion (rotations about coordinate axes, half turns about axes in coordinate planes: all regions of the
 matrix -> quaternion conversion and their boundaries) in batches mixed with generic rotations; clouds far from the origin
 relative to their spacing and ICP clouds below / above two dozen / a hundred points (distance computations that lose the
-spacing in the magnitude of the coordinates, or switch algorithm with the size, show up there).
+spacing in the magnitude of the coordinates, or switch algorithm with the size, show up there); regular / symmetric point sets next
+to the random clouds (EPnP: odd regular grids, box corners + centre, a cloud + its own mean, point-symmetric sets, repeated points,
+integer coordinates - a point exactly or numerically ON the centroid, tied singular values -, kept inside the property by an
+independent non-degeneracy test: >= 6 different points and a one-dimensional null space of the textbook DLT system; svdtf / svdstf /
+ICP: point-symmetric clouds around a point on the centroid).
 History: the source before fix 23d9fa1 negated the whole matrix in svdtf's reflection branch (and ICP
 on planar clouds failed through it); the recorded witnesses of both are regression cases of every
 run, a recurrence is reported as a VIOLATION (known_findings.txt lists them as `fixed:`).
@@ -45,7 +49,12 @@ RULE = ('clouds: generic / planar (axis-aligned and tilted) / collinear / duplic
         'ICP: generic (in-basin exact perturbations about the centroid: must be recovered to ~1e-12 x magnitude) and planar clouds, 4..200 points (below / above two dozen '
         '/ a hundred), at the origin or 1e2..5e9 smallest-point-distances away from it, permuted targets, init / no init, batched, call forms (ord / dim given or not), '
         'judged call = 2nd call on its object; knn contract up to 64 eps x squared diameter; '
-        'EPnP: 6..100 points in front of the camera, exact projections, refine on/off, batched' % (K_EPS, K_EPS))
+        'EPnP: 6..100 points in front of the camera, exact projections, refine on/off, batched; generic clouds and regular / symmetric point sets '
+        '(odd regular grids, box corners + centre (+ face centres), a cloud + its own mean, point-symmetric sets, repeated points, small-integer '
+        'coordinates; axis-aligned or rotated; at the origin / a dyadic / a generic offset, i.e. a point exactly or only numerically on the centroid; '
+        'poses uniform or frontal), at least 6 different points and a one-dimensional null space of the textbook DLT system (sigma_11/sigma_1 > 1e-3), '
+        'alone and in batches mixed with generic clouds; svdtf / svdstf / ICP also on point-symmetric clouds (box corners / 3x3x3 grid / pairs +-v '
+        'around a point on the centroid)' % (K_EPS, K_EPS))
 
 
 # ------------------------------------------------------------------------------------ Coq literals
@@ -165,7 +174,27 @@ def mv(R, p):
     return [R[i][0] * p[0] + R[i][1] * p[1] + R[i][2] * p[2] for i in range(3)]
 
 
-CLOUD_KINDS = ['generic', 'planar', 'planar-tilted', 'collinear', 'duplicated', 'minimal', 'grid']
+CLOUD_KINDS = ['generic', 'planar', 'planar-tilted', 'collinear', 'duplicated', 'minimal', 'grid', 'symmetric']
+
+
+def symmetric_points(rng, N, spread):
+    """N points symmetric about the origin, one of them (two for the sizes that leave a point over) ON the centroid: the corners
+    of a box + its centre (N >= 9) or an odd regular 3x3x3 grid (N >= 27) - or just the centre -, filled up with pairs +-v"""
+    h = [spread * rng.choice([1.0, 1.0, 0.5, rng.uniform(0.3, 1.5)]) for _ in range(3)]
+    form = rng.random()
+    if N >= 27 and form < 0.6:
+        pts = [[h[0] * i, h[1] * j, h[2] * k] for i in (-1, 0, 1) for j in (-1, 0, 1) for k in (-1, 0, 1)]
+    elif N >= 9 and form < 0.8:
+        pts = [[sx * h[0], sy * h[1], sz * h[2]] for sx in (-1, 1) for sy in (-1, 1) for sz in (-1, 1)] + [[0.0, 0.0, 0.0]]
+    else:
+        pts = [[0.0, 0.0, 0.0]]
+    while len(pts) + 2 <= N:
+        v = [rng.gauss(0, spread) for _ in range(3)]
+        pts += [v, [-a for a in v]]
+    if len(pts) < N:
+        pts.append([0.0, 0.0, 0.0])
+    rng.shuffle(pts)
+    return pts
 
 
 def gen_cloud(rng, kind, N, far=0.0):
@@ -184,7 +213,12 @@ def gen_cloud(rng, kind, N, far=0.0):
             pts[0][0] += 1.0
         return pts
     pts = [[rng.gauss(0, spread) for _ in range(3)] for _ in range(N)]
-    if kind == 'planar':
+    if kind == 'symmetric':
+        pts = symmetric_points(rng, N, spread)
+        if rng.random() < 0.5:
+            R = gen_rot(rng, 'uniform')
+            pts = [mv(R, p) for p in pts]
+    elif kind == 'planar':
         ax = rng.randrange(3)
         for p in pts:
             p[ax] = 0.0
@@ -413,7 +447,7 @@ def plan_align(ctx):
     # directed: flip branch x mat2SO3 region come from (cloud kind x rotation kind); both with_scale values
     for fn in ('svdtf', 'svdstf'):
         rks = ['identity', 'turn-x', 'turn-y', 'turn-z', 'quarter-z', 'uniform']
-        for ci, ck in enumerate(('generic', 'planar', 'planar-tilted', 'minimal', 'collinear', 'duplicated', 'grid')):
+        for ci, ck in enumerate(('generic', 'planar', 'planar-tilted', 'minimal', 'collinear', 'duplicated', 'grid', 'symmetric')):
             for rk in (rks if ctx.thorough else [rks[(ci + j) % 6] for j in (0, 2, 3)]):
                 N = 3 if ck == 'minimal' else rng.choice([3, 4, 5, 8])
                 plan.append(dict(fn=fn, ck=ck, rk=rk, N=N, noise=0.0, nk='iso', s=(1.0 if fn == 'svdtf' else rng.choice([0.5, 2.0, 1.0])),
@@ -433,7 +467,7 @@ def plan_align(ctx):
                 plan.append(dict(fn=fn, ck=ck, rk='uniform', rks=rks, N=3 if ck == 'minimal' else rng.choice([4, 6]),
                                  noise=0.0, nk='iso', s=(1.0 if fn == 'svdtf' else rng.choice([0.5, 2.5])), ws=True,
                                  shape=rng.choice([(16,), (4, 4), (2, 8)])))
-    n = ctx.scale(64, 800)
+    n = ctx.scale(60, 800)
     for _ in range(n):
         fn = rng.choice(['svdtf', 'svdstf'])
         ck = rng.choice(CLOUD_KINDS)
@@ -772,7 +806,7 @@ def gen_icp(rng, kind, N, far=0.0):
     above the resolution of float64 there (far <= 1e10: one ulp of a coordinate <= 2e-6 of the smallest point distance)"""
     np = np_()
     while True:
-        src = gen_cloud(rng, 'planar' if kind == 'planar' else ('planar-tilted' if kind == 'planar-tilted' else 'generic'), N)
+        src = gen_cloud(rng, kind if kind in ('planar', 'planar-tilted', 'symmetric') else 'generic', N)
         X = np.asarray(src)
         D = ((X[:, None, :] - X[None, :, :]) ** 2).sum(-1) ** 0.5 + np.eye(N) * 1e9
         dmin = float(D.min())
@@ -855,7 +889,8 @@ def icp_block(ctx, pp, torch):
     # spacing): few / more than two dozen / a hundred points, at the origin / far / very far away (float64 still resolves the spacing
     # to better than 1e-6 there), single and batched, planar too
     plan = [dict(kind='generic', shape=()), dict(kind='planar', shape=()), dict(kind='planar-tilted', shape=()), dict(kind='generic', shape=(2,)),
-            dict(kind='generic', shape=()),
+            # a regular / point-symmetric cloud with a point on its centroid (odd sizes: no repeated point)
+            dict(kind='symmetric', shape=(), N=rng.choice([7, 9, 11, 27])),
             dict(kind='generic', shape=(), N=rng.randint(26, 40)),
             dict(kind='generic', shape=(), N=rng.randint(8, 24), far=10 ** rng.uniform(8.5, 9.7)),
             dict(kind='generic', shape=(), N=rng.randint(26, 60), far=10 ** rng.uniform(8.5, 9.7)),
@@ -1017,6 +1052,84 @@ def gen_epnp(rng, N):
     return K, [[float(v) for v in p] for p in pw], R, t
 
 
+def pnp_gap(X, pc):
+    """non-degeneracy of a point set for camera resection, from the textbook direct linear transform (nothing of the
+    implementation): the 2N x 12 system  [Xh 0 -x Xh; 0 Xh -y Xh] p = 0  (Xh = centred, normalised homogeneous world points,
+    (x, y) = normalised image points) determines the camera up to scale iff its null space has dimension one; returns
+    sigma_11 / sigma_1 (0 for coplanar sets, fewer than six different points, points on a twisted cubic through the centre)"""
+    np = np_()
+    X, pc = np.asarray(X, dtype=float), np.asarray(pc, dtype=float)
+    Xc = X - X.mean(0)
+    Xc = Xc / (np.sqrt((Xc ** 2).sum(-1).mean()) + 1e-300)
+    Xh = np.concatenate([Xc, np.ones((len(X), 1))], 1)
+    x, y = pc[:, 0:1] / pc[:, 2:3], pc[:, 1:2] / pc[:, 2:3]
+    Z = np.zeros_like(Xh)
+    A = np.concatenate([np.concatenate([Xh, Z, -x * Xh], 1), np.concatenate([Z, Xh, -y * Xh], 1)], 0)
+    s = np.linalg.svd(A, compute_uv=False)
+    return float(s[10] / s[0]) if s[0] > 0 else 0.0
+
+
+EPNP_KINDS = ['grid-odd', 'cube+centre', 'centroid-added', 'point-symmetric', 'duplicated', 'integer']
+
+
+def gen_epnp_structured(rng, kind, N):
+    """regular / symmetric world point sets, the kind calibration targets and synthetic scenes are made of, all genuinely
+    three-dimensional (smallest / largest singular value of the centred set > 0.2) and strictly in front of the camera:
+    odd regular grids (3x3x3, 3x3x5, 5x3x3, ... <= 100 points; they contain their own centroid), the corners of a box + its
+    centre, a generic cloud + the mean of its points, point-symmetric sets (c +- v, and c itself), generic clouds with repeated
+    points (also a repeated point on the centroid), small-integer coordinates (ties); axis-aligned or rotated in the world,
+    placed at the origin / a dyadic / a generic offset (a point ON the centroid exactly or only up to rounding); the pose is
+    uniform on SO(3) or a special one (identity, half / quarter turns: the set seen frontally).  Returns K, pw, R, t"""
+    np = np_()
+    while True:
+        if kind == 'grid-odd':
+            dims = [(3, 3, 3), (3, 3, 3), (3, 3, 5), (5, 3, 3), (3, 5, 3), (5, 5, 3)]
+            dims = rng.choice([d for d in dims if d[0] * d[1] * d[2] == N] or dims)
+            h = [rng.choice([1.0, 0.5, rng.uniform(0.3, 1.0)]) for _ in range(3)] if rng.random() < 0.6 else [1.0] * 3
+            P = [[h[0] * (i - dims[0] // 2), h[1] * (j - dims[1] // 2), h[2] * (k - dims[2] // 2)]
+                 for i in range(dims[0]) for j in range(dims[1]) for k in range(dims[2])]
+        elif kind == 'cube+centre':
+            h = [rng.choice([1.0, rng.uniform(0.5, 1.5)]) for _ in range(3)]
+            P = [[sx * h[0], sy * h[1], sz * h[2]] for sx in (-1, 1) for sy in (-1, 1) for sz in (-1, 1)] + [[0.0, 0.0, 0.0]]
+            if N >= 15:        # + the face centres
+                P += [[s * h[0] if a == 0 else 0.0, s * h[1] if a == 1 else 0.0, s * h[2] if a == 2 else 0.0] for a in range(3) for s in (-1, 1)]
+        elif kind == 'centroid-added':
+            P = [[rng.uniform(-1.5, 1.5) for _ in range(3)] for _ in range(max(N, 6) - 1)]
+            P.append([float(v) for v in np.asarray(P).mean(0)])
+        elif kind == 'point-symmetric':
+            V = [[rng.uniform(-1.5, 1.5) for _ in range(3)] for _ in range(max(N, 7) // 2)]
+            P = [list(v) for v in V] + [[-a for a in v] for v in V] + [[0.0, 0.0, 0.0]]
+        elif kind == 'duplicated':
+            P = [[rng.uniform(-1.5, 1.5) for _ in range(3)] for _ in range(max(N, 9) - 3)]
+            c = [float(v) for v in np.asarray(P + [P[0]]).mean(0)]
+            P = P + [list(P[0])] + ([c, list(c)] if rng.random() < 0.5 else [list(P[1]), list(P[1])])
+        else:               # 'integer'
+            P = [[float(rng.randint(-2, 2)) for _ in range(3)] for _ in range(max(N, 6))]
+        rng.shuffle(P)
+        X = np.asarray(P, dtype=float)
+        sv = np.linalg.svd(X - X.mean(0), compute_uv=False)
+        if not (sv[0] > 0 and sv[2] > 0.2 * sv[0]):
+            continue
+        r = rng.random()
+        if r < 0.5:
+            X = X @ np.asarray(gen_rot(rng, 'uniform')).T          # not aligned with the world axes
+        r = rng.random()
+        off = [0.0] * 3 if r < 0.25 else ([rng.randint(-16, 16) / 4.0 for _ in range(3)] if r < 0.5 else [rng.uniform(-5, 5) for _ in range(3)])
+        X = X + np.asarray(off)
+        rad = float(((X - X.mean(0)) ** 2).sum(-1).max() ** 0.5)
+        R = gen_rot(rng, rng.choice(['uniform', 'uniform', 'uniform', 'identity', 'turn-x', 'quarter-z', 'sparse']))
+        cam = [rng.uniform(-1, 1), rng.uniform(-1, 1), rad + rng.uniform(1.5, 6)]      # centroid in the camera frame
+        t = [float(v) for v in (np.asarray(cam) - np.asarray(R) @ X.mean(0))]
+        pc = X @ np.asarray(R).T + np.asarray(t)
+        if float(pc[:, 2].min()) < 1.0:
+            continue
+        if len(set(map(tuple, X.tolist()))) < 6 or pnp_gap(X, pc) < 1e-3:
+            continue            # fewer than 6 different points / projections that do not determine the camera: outside the property
+        f = rng.uniform(200, 900)
+        K = [[f, 0.0, rng.uniform(200, 400)], [0.0, f * rng.uniform(0.8, 1.25), rng.uniform(150, 300)], [0.0, 0.0, 1.0]]
+        return K, [[float(v) for v in p] for p in X], R, t
+
+
 def run_epnp(pp, torch, rec):
     """returns the worst pose error (rotation entries, translation relative) over the batch and the
     null-space defect of the true control points"""
@@ -1044,8 +1157,9 @@ def run_epnp(pp, torch, rec):
         er = float(np.abs(Re - np.asarray(rec['R'][b])).max())
         et = float(np.abs(np.asarray(v[0:3]) - np.asarray(rec['t'][b])).max()) / (1.0 + float(np.abs(np.asarray(rec['t'][b])).max()))
         if er > 1e-6 or et > 1e-6:
-            worst = ('EPnP(refine=%s) did not recover the pose from exact projections of %d generic points in front of the camera: '
-                     'rotation entries off by %.3g, translation off by %.3g (relative), item %d' % (rec['refine'], len(rec['pw'][b]), er, et, b))
+            worst = ('EPnP(refine=%s) did not recover the pose from exact projections of %d points in front of the camera (%s point set): '
+                     'rotation entries off by %.3g, translation off by %.3g (relative), item %d'
+                     % (rec['refine'], len(rec['pw'][b]), rec.get('kind', 'generic'), er, et, b))
             break
     if worst:
         return worst
@@ -1066,16 +1180,29 @@ def run_epnp(pp, torch, rec):
 
 def epnp_block(ctx, pp, torch):
     rng = ctx.rng
-    n = ctx.scale(10, 150)
+    n = ctx.scale(16, 150)
+    # directed: 6, 7, 100 generic points; then every kind of regular / symmetric point set (a point on the centroid, repeated points,
+    # ties), single and in batches that mix them with generic clouds of the same size; then random ones (2 in 5 structured)
+    kinds = list(EPNP_KINDS)
+    rng.shuffle(kinds)
     for k in range(n):
         shape = () if k < 3 else rng.choice([(), (), (2,), (3,), (2, 2)])
         B = 1
         for d in shape:
             B *= d
         N = [6, 7, 100][k] if k < 3 else (rng.randint(6, 20) if rng.random() < 0.6 else rng.randint(21, 100))
-        gens = [gen_epnp(rng, N) for _ in range(B)]
+        kind = 'generic' if k < 3 else (kinds[k - 3] if k - 3 < len(kinds) else (rng.choice(EPNP_KINDS) if rng.random() < 0.4 else 'generic'))
+        if kind == 'generic':
+            gens = [gen_epnp(rng, N) for _ in range(B)]
+        else:
+            gens = [gen_epnp_structured(rng, kind, min(N, 40))]
+            N = len(gens[0][1])
+            while len(gens) < B:
+                g = gen_epnp_structured(rng, kind, N) if len(gens) % 2 == 0 else None
+                gens.append(g if g is not None and len(g[1]) == N else gen_epnp(rng, N))
         rec = dict(call='EPnP', K=[g[0] for g in gens], pw=[g[1] for g in gens], R=[g[2] for g in gens], t=[g[3] for g in gens],
-                   shape=list(shape), refine=(k % 2 == 0))
+                   shape=list(shape), refine=(k % 2 == 0), kind=kind)
+        ctx.count('epnp:point-set:' + kind)
         ctx.case(('epnp', N, rec['refine'], tuple(map(tuple, rec['pw'][0]))), nontrivial=True,
                  branch='epnp:%s:%s:N%s' % ('refine' if rec['refine'] else 'no-refine', 'batched' if shape else 'single', '6-20' if N <= 20 else '21-100'))
         try:
